@@ -31,6 +31,29 @@ TRUSTED: Dict[str, str] = {
 _EDGE_CACHE: Dict[str, Any] = {}
 
 
+_CHAR_TABLES: Optional[Tuple[List[Tuple[int, int]], List[Tuple[int, int]]]] = None
+
+
+def _char_tables() -> Tuple[List[Tuple[int, int]], List[Tuple[int, int]]]:
+    """Code-point ranges of str.isdecimal / str.isdigit (one-character strings)."""
+    global _CHAR_TABLES
+    if _CHAR_TABLES is None:
+        out = []
+        for pred in (str.isdecimal, str.isdigit):
+            rngs: List[Tuple[int, int]] = []
+            start = None
+            for c in range(0x110000 + 1):
+                ok = c < 0x110000 and pred(chr(c))
+                if ok and start is None:
+                    start = c
+                elif not ok and start is not None:
+                    rngs.append((start, c - 1))
+                    start = None
+            out.append(rngs)
+        _CHAR_TABLES = (out[0], out[1])
+    return _CHAR_TABLES
+
+
 def _regex_edges(pat: str) -> Optional[Tuple[int, Optional[List[Tuple[int, int]]], Optional[List[Tuple[int, int]]]]]:
     """(minimal length, ranges of possible first characters, ranges of possible last characters) of the
     language of ``pat`` -- a sound over-approximation computed from sre_parse; None if not understood."""
@@ -343,9 +366,43 @@ class Builtins:
                     raise PathEnd("ValueError")
             if base == 16:
                 return VInt(self.hex_value(v, node, fr))
+            if base != 10:
+                raise Unsupported(f"int(s, {base}) of a symbolic string")
+            # int(s) raises ValueError unless s is a decimal literal: the obligation is ``s.isdecimal()`` (non-empty,
+            # Unicode decimal digits only; signs, blanks and '_' are not claimed -- code relying on them is refuted)
+            isdec = z3.Function("str_isdecimal", SEQ, z3.BoolSort())
+            origin = self.path.cache.get(("join-origin", v.t.get_id()))
+            if origin is not None:
+                # lemma for "".join(xs): a failing element witnesses a failing join
+                n_term, get = origin
+                if self.path.branch(n_term >= 1):
+                    k = z3.Int(self.path.fresh_name("$joinwit"))
+                    self.path.add_fact(z3.And(k >= 0, k < n_term))
+                    self.register_index(k)
+                    ek = self.as_str(get(k), node, fr)
+                    self.ascii_digit_facts(ek)
+                    self.path.add_fact(z3.Or(z3.Not(isdec(ek.t)), isdec(v.t)))
+            self.ascii_digit_facts(v)
+            self.ob(isdec(v.t), "value", node, fr, "int(s): s consists of decimal digits (ValueError otherwise)")
+            self.path.add_fact(isdec(v.t))
             f = z3.Function(f"int_of_str_{base}", SEQ, z3.IntSort())
-            return VInt(f(v.t))
+            r = f(v.t)
+            self.path.add_fact(r >= 0)
+            return VInt(r)
         raise Unsupported("int() of unsupported value")
+
+    def ascii_digit_facts(self, s: VStr) -> None:
+        """'0'..'9' are decimal digits; decimal digits are digits (str.isdecimal ⇒ str.isdigit); '²' is a digit
+        that is not decimal."""
+        isdec = z3.Function("str_isdecimal", SEQ, z3.BoolSort())
+        isdig = z3.Function("str_isdigit", SEQ, z3.BoolSort())
+        t = s.t
+        self.path.add_fact(z3.Implies(isdec(t), z3.And(isdig(t), z3.Length(t) >= 1)))
+        # on one-character strings both predicates are the tables of this interpreter's unicodedata
+        def inset(c: Any, rngs: List[Tuple[int, int]]) -> Any:
+            return z3.Or(*[(c == a) if a == b else z3.And(c >= a, c <= b) for a, b in rngs])
+        dec, dig = _char_tables()
+        self.path.add_fact(z3.Implies(z3.Length(t) == 1, z3.And(isdec(t) == inset(t[0], dec), isdig(t) == inset(t[0], dig))))
 
     def hex_value(self, v: VStr, node: Any, fr: Frame) -> Any:
         """int(s, 16) for a symbolic s whose length is concrete on this path (≤ 8)."""
@@ -859,7 +916,9 @@ class Builtins:
             ln = f_len(key)
             self.path.add_fact(ln >= 0)
             return VList([], base_len=ln, base_get=lambda idx: VStr([f_el(key, idx)]))
-        if name in ("isdigit", "isalpha", "isalnum", "isupper", "islower", "isspace", "isidentifier"):
+        if name in ("isdigit", "isdecimal"):
+            self.ascii_digit_facts(s)
+        if name in ("isdigit", "isdecimal", "isalpha", "isalnum", "isupper", "islower", "isspace", "isidentifier"):
             f = z3.Function("str_" + name, SEQ, z3.BoolSort())
             return VBool(f(s.t))
         raise Unsupported(f"str method {name}")
@@ -1025,6 +1084,9 @@ class Builtins:
                 lid = z3.Int(self.path.fresh_name("$listid." + (seq.ident or "l")))
                 seq.folds[key] = f(sep.t, lid)
             base = seq.folds[key]
+            if sep.py == "":
+                view = self.iter_view(seq, node, fr)
+                self.path.cache[("join-origin", base.get_id())] = (view[1], view[2])
             parts: List[Any] = [base]
             # items appended after the fold was last synchronised are kept in the fold by append
             return VStr(parts)
